@@ -138,6 +138,10 @@ def snap_msg(m):
 
 # ---------------------------------------------------------------- device doubles
 
+DEVICE_READ_ERROR = 'simulated device read error'
+DEVERR = object()
+
+
 class Wire:
     def __init__(self):
         self.buf = []
@@ -150,6 +154,8 @@ class LockedDev(mports.BaseIOPort):
     def _open(self, wire=None, newstyle=False, **kw):
         self.wire = wire
         self.newstyle = newstyle
+        self.recv_calls = 0
+        self.recv_fail_at = None
 
     def _send(self, msg):
         for b in msg.bytes():
@@ -158,6 +164,10 @@ class LockedDev(mports.BaseIOPort):
             _yield('dev.send')
 
     def _receive(self, block=True):
+        i = self.recv_calls = getattr(self, 'recv_calls', 0) + 1
+        if getattr(self, 'recv_fail_at', None) == i and self.wire.buf:
+            # a transient device read error: nothing was read, the bytes stay where they are
+            raise OSError(5, DEVICE_READ_ERROR)
         if self.wire.buf:
             data = self.wire.buf[:]
             del self.wire.buf[:]
@@ -208,6 +218,8 @@ class PortsConc(BaseEngine):
     # ------------ generation
     def gen(self, prop, seed, idx, tier):
         rng = rng_for(prop, seed, idx, 'plan')
+        if prop == 'C10' and tier != 'inner' and idx % 20 == 13:
+            return self.gen_server_bcast(prop, seed, idx, rng_for(prop, seed, idx, 'server'))
         kinds = [k for k in KINDS if k not in self.avoid]
         kind = pick(rng, kinds)
         big = rng.random() < 0.05
@@ -225,6 +237,10 @@ class PortsConc(BaseEngine):
             tgt_s.insert(rng.randint(0, len(tgt_s)), [pick(rng, ('reset', 'reset', 'panic')), 0])
         receivers = []
         n_sub = rng.randint(1, 3) if kind.startswith('multi') else 1
+        recv_fault = None
+        if kind in ('multi', 'multi_yield', 'locked_old', 'locked_new') and rng.random() < 0.15:
+            recv_fault = [rng.randrange(n_sub), rng.randint(1, 6)]      # sub-port, number of the failing read
+        temp_wrapper = kind.startswith('multi') and rng.random() < 0.15
         for r in range(n_recv):
             ops = []
             for _ in range(rng.randint(1, 5)):
@@ -257,12 +273,13 @@ class PortsConc(BaseEngine):
                 'chunks': [rng.randint(1, 4) for _ in range(8)], 'pq_whole': rng.random() < 0.5, 'pq_batch': [pick(rng, (1, 1, 2, 3, 4)) for _ in range(3)],
                 'sleep_time': pick(rng, (1e-4, 1e-3, 1e-2, 0.5)), 'start_time': pick(rng, (0.0, 100.0, 1.7e9)),
                 'sched': sched, 'sched_seed': derive(prop, seed, idx, 'sched'), 'decisions': [], 'total': total,
+                'recv_fault': recv_fault, 'temp_wrapper': temp_wrapper,
                 'max_steps': 400000 if any(sh in ('reset', 'panic') for s_ in senders for sh, _ in s_) else 30000}
 
     def gen_twin(self, prop, seed, idx, wires, rng):
         """Two threads, each an independent user of the parser (own Parser object fed in chunks, or repeated
         mido.parse_all calls on its own data). Nothing is shared on purpose."""
-        base = self.gen(prop, seed, idx, 'quick')
+        base = self.gen(prop, seed, idx, 'inner')
         base['kind'] = 'twin_parsers'
         base['wires'] = [list(w) for w in wires]
         base['twin_api'] = [pick(rng, ('parser', 'parser', 'parse_all', 'feed_byte')) for _ in wires]
@@ -273,7 +290,7 @@ class PortsConc(BaseEngine):
 
     def gen_twin_files(self, prop, seed, idx, files, rng):
         """Two threads, each iterating and measuring its OWN MidiFile (independent objects)."""
-        base = self.gen(prop, seed, idx, 'quick')
+        base = self.gen(prop, seed, idx, 'inner')
         base['kind'] = 'twin_files'
         base['files'] = files          # [{'tpb':..., 'tracks': [[ [delta, kind, arg] ...]]}, ...]
         base['senders'] = [[] for _ in files]
@@ -282,17 +299,31 @@ class PortsConc(BaseEngine):
 
     def gen_sock_close(self, prop, seed, idx, rng):
         """A reader thread iterating a SocketPort while another thread closes it (peer connected, possibly silent)."""
-        base = self.gen(prop, seed, idx, 'quick')
+        base = self.gen(prop, seed, idx, 'inner')
         base['kind'] = 'sock_close'
         base['senders'] = [[[pick(rng, MSG_SHAPES[:8]), rng.randrange(128)] for _ in range(rng.randint(0, 3))]]
         base['receivers'] = [[['iter', -1, 50]]]
         base['close_after'] = rng.randint(0, 40)
         return base
 
+    def gen_server_bcast(self, prop, seed, idx, rng):
+        """A PortServer broadcasting to its clients from one thread while another thread closes one client's port and
+        accepts a new connection through the public accept()."""
+        base = self.gen(prop, seed, idx, 'inner')
+        base['kind'] = 'server_bcast'
+        base['n_clients'] = rng.randint(2, 3)
+        base['closed_client'] = rng.randrange(2)
+        base['senders'] = [[[pick(rng, MSG_SHAPES[:8]), rng.randrange(128)] for _ in range(rng.randint(1, 4))], []]
+        base['receivers'] = []
+        base['close_after'] = rng.randint(0, 60)
+        base['recv_fault'] = None
+        base['max_steps'] = 30000
+        return base
+
     def gen_raw(self, prop, seed, idx, wire, rng):
         """Plan for C05 mode B: a driver thread feeds `wire` to a ParserQueue in chunks, 1-2 consumers;
         or (every third) several producers each feeding whole encodings, several per put_bytes call."""
-        base = self.gen(prop, seed, idx, 'quick')
+        base = self.gen(prop, seed, idx, 'inner')
         if rng.random() < 0.35:
             base['kind'] = 'pq'
             base['pq_whole'] = True
@@ -350,7 +381,7 @@ class PortsConc(BaseEngine):
         pqmod.queue = simsync.QueueShim
         mports.set_sleep_time(plan['sleep_time'])
         self._saved_sock = None
-        if plan['kind'] == 'sock_close':
+        if plan['kind'] in ('sock_close', 'server_bcast'):
             self._saved_sock = (msock.socket, msock.select)
             net = simnet.SimNet(sched, log)
             sel = simnet.SelectShim(net)
@@ -388,6 +419,7 @@ class PortsConc(BaseEngine):
                 'cov': cov, 'events': log.events, 'sim_s': sched.now - sched.start_time, 'final_plan': final}
 
     def _build(self, plan):
+        self._recv_victim = None
         kind = plan['kind']
         wires = []
         subs = []
@@ -408,6 +440,12 @@ class PortsConc(BaseEngine):
         elif kind in ('multi', 'multi_yield'):
             subs = [dev(k) for k in plan['sub_kinds'][:plan['n_sub']]]
             port = mports.MultiPort(subs, yield_ports=(kind == 'multi_yield'))
+            if plan.get('temp_wrapper'):
+                # another, short-lived wrapper around the same ports is used and dropped first: the ports are
+                # the application's, not the wrapper's
+                with mports.MultiPort(subs) as tmp:
+                    tmp.poll()
+                del tmp
         elif kind in ('twin_parsers', 'twin_files'):
             port = None
         elif kind == 'sock_close':
@@ -420,12 +458,30 @@ class PortsConc(BaseEngine):
             conn, (chost, cport) = lst.accept()
             port = msock.SocketPort(chost, cport, conn=conn)
             self._raw = raw
+        elif kind == 'server_bcast':
+            net = self._net
+            port = msock.PortServer('h', 1)
+            self._raws = []
+            for _ in range(plan['n_clients']):
+                raw = net.socket()
+                raw.connect(('h', 1))
+                self._raws.append(raw)
+                port.poll()                 # the server takes the pending connection in (one per sweep)
+            subs = list(port.ports)
+            if len(subs) != plan['n_clients']:
+                raise Violation('server:accept-failed', f'{plan["n_clients"]} clients connected, the server holds '
+                                                        f'{len(subs)} ports after as many sweeps')
         elif kind == 'pair':
             # two independent device ports used side by side: nothing sent on one may show up on the other
             subs = [dev(k if k != 'echo' else 'locked_old') for k in (plan['sub_kinds'] * 2)[:2]]
             port = subs[0]
         else:
             port = RtLikeInput('rt')
+        rf = plan.get('recv_fault')
+        if rf:
+            victims = [p for p in (subs or [port]) if isinstance(p, LockedDev)]
+            if victims:
+                self._recv_victim = (victims[rf[0] % len(victims)], rf[1])
         return port, subs, wires
 
     def _simulate(self, plan, sched, log, stats, cov, tshim):
@@ -459,13 +515,22 @@ class PortsConc(BaseEngine):
             hist.append((th, op, inv, sched.total_steps, res))
             log.ev('op', th, op, inv, sched.total_steps, repr(res))
 
-        def guarded(th, op, fn, *a):
+        def guarded(th, op, fn, *a, tolerate=()):
             inv = sched.total_steps
             try:
                 res = fn(*a)
             except SimAbort:
                 raise
             except BaseException as e:
+                if tolerate and isinstance(e, tolerate):
+                    record(th, op, inv, f'tolerated {type(e).__name__}')
+                    stats['tolerated:' + type(e).__name__] += 1
+                    return inv, DEVERR
+                if isinstance(e, OSError) and DEVICE_READ_ERROR in str(e):
+                    # the injected fault came through to the caller: allowed; nothing may be lost because of it
+                    stats['fault:device_read_error_reached_caller'] += 1
+                    record(th, op, inv, 'device-read-error')
+                    return inv, DEVERR
                 errors.append((th, op, e))
                 record(th, op, inv, f'raised {type(e).__name__}: {e}')
                 if not isinstance(e, StopIteration):
@@ -569,8 +634,27 @@ class PortsConc(BaseEngine):
             record('S0', 'close', inv, None)
             done['senders'] += 1
 
+        bcast_ok = []
+
+        def acceptor_body():
+            # the application closes one client's port itself, then takes a new connection with the public accept()
+            for _ in range(plan.get('close_after', 0)):
+                _yield('acceptor.wait')
+            victim = subs[plan['closed_client'] % len(subs)]
+            inv, _ = guarded('S1', 'close', victim.close)
+            record('S1', 'close', inv, None)
+            raw = self._net.socket()
+            raw.connect(('h', 1))
+            self._raws.append(raw)
+            inv, res = guarded('S1', 'accept', port.accept)
+            record('S1', 'accept', inv, type(res).__name__)
+            self._late_port = res
+            done['senders'] += 1
+
         def sender_body(si):
             def body():
+                if kind == 'server_bcast' and si == 1:
+                    return acceptor_body()
                 if kind == 'sock_close':
                     return closer_body()
                 if kind == 'twin_files':
@@ -597,6 +681,15 @@ class PortsConc(BaseEngine):
                     m = make_msg(shape, si, seq, pad)
                     orig = make_msg('sysex' if shape == 'sysex_raw' else shape, si, seq, pad)
                     sent.append((si, seq, orig, sched.total_steps, m))
+                    if kind == 'server_bcast':
+                        # a member port is being closed by the application meanwhile: this send may fail with
+                        # ValueError/OSError (then some clients do not get this message); one that returns
+                        # normally has reached every client that stays connected
+                        inv, r = guarded(f'S{si}', 'send', port.send, m, tolerate=(ValueError, OSError))
+                        record(f'S{si}', 'send', inv, (si, seq))
+                        if r is not DEVERR:
+                            bcast_ok.append(snap_msg(orig))
+                        continue
                     inv, _ = guarded(f'S{si}', 'send', (subs[si % 2] if kind == 'pair' else port).send, m)
                     record(f'S{si}', 'send', inv, (si, seq))
                     if plan['mutate_after_send']:
@@ -650,6 +743,8 @@ class PortsConc(BaseEngine):
             return port
 
         def got(th, op, inv, res, tgt):
+            if res is DEVERR:
+                return
             progress['last'] = sched.total_steps
             progress['idle'] = 0
             record(th, op, inv, res if res is None else (repr(res)))
@@ -806,6 +901,12 @@ class PortsConc(BaseEngine):
                 seq = [snap_msg(m) for m in mf]
                 ln = repr(mf.length)
                 twin_ref[si] = [seq, ln, seq, ln]
+        victim = getattr(self, '_recv_victim', None)
+        self._recv_victim = None
+        if victim is not None:
+            victim[0].recv_calls = 0            # armed once the threads start (not during earlier traffic)
+            victim[0].recv_fail_at = victim[1]
+            stats['fault:device_read_error_armed'] += 1
         for si in range(n_send):
             sched.spawn(f'S{si}', sender_body(si))
         for ri in range(len(plan['receivers'])):
@@ -845,6 +946,37 @@ class PortsConc(BaseEngine):
                             f'{progress["starved"][0]} stayed inside a blocking receive for 25 idle rounds of the '
                             f'simulated clock while {progress["starved"][1]} item(s) were deliverable on its port')
 
+        if kind == 'server_bcast':
+            net = self._net
+            for raw in self._raws:
+                if raw.rx is not None:
+                    net.deliver(raw.rx)
+            while net.next_event_time() is not None:
+                sched.now = max(sched.now, net.next_event_time())
+                net.pump()
+            want = [snap_msg(orig) for _, _, orig, _, _ in sent]
+            closed_i = plan['closed_client'] % plan['n_clients']
+            for ci, raw in enumerate(self._raws[:plan['n_clients']]):
+                data = bytes(raw.rx.buf)
+                try:
+                    have = [snap_msg(m) for m in mido.parse_all(data)]
+                except Exception as e:
+                    raise Violation('server:client-stream-corrupt', f'client {ci} received {data.hex(" ")}: {e!r}')
+                # in order, nothing but what was sent ...
+                it = iter(want)
+                ok = all(any(h == w for w in it) for h in have)
+                # ... and, for a client that stays connected, every broadcast whose send() returned normally
+                if ok and ci != closed_i and sched.abort_reason != 'stepcap':
+                    it = iter(have)
+                    ok = all(any(b == h for h in it) for b in bcast_ok)
+                if not ok:
+                    raise Violation('server:broadcast-missed' if len(have) < len(want) else 'server:broadcast-wrong',
+                                    f'the server sent {want!r}; client {ci} (connected throughout'
+                                    f'{", its port closed by the application" if ci == closed_i else ""}) received {have!r}')
+            cov.add('server_bcast')
+            stats['probe:server_broadcast_during_accept'] += 1
+            stats['fault:client_port_closed_during_broadcast'] += 1
+            return
         if kind == 'sock_close':
             for t in sched.threads:
                 if isinstance(t.exc, Violation):
@@ -904,6 +1036,9 @@ class PortsConc(BaseEngine):
         # ---- final drain by the controlling thread (scheduler no longer active)
         mports.time = simsync.TimeShim(sched)
         drained = []
+        for p in list(subs) + [port]:
+            if isinstance(p, LockedDev):
+                p.recv_fail_at = None       # faults are over: what is still there must come out now
         try:
             if kind in ('pq', 'pq_raw'):
                 drained = [(m, -1) for m in port._queue.iterpoll()]
